@@ -248,6 +248,35 @@ def gen_up(rng):
     return f"up pm={pm} m={hx(method)} host={hx(host)} sub={subs} comp={comp} noh1={noh1} co={co} oh=? H {hs}".rstrip()
 
 
+WIRE_METHODS = {b"GET", b"POST", b"get", b"HEAD", b"PUT"}
+
+
+def header_value_safe(v):
+    return all(c == 9 or (32 <= c and c != 127) for c in v)
+
+
+def gen_wire(rng):
+    """an upgrade request as raw HTTP/1.1 bytes for the real server: only what net/http itself accepts
+    (token field names, field values without control characters, one non-empty Host)"""
+    for _ in range(200):
+        kv, hs = parse_up(gen_up(rng))
+        method, host = unhx(kv["m"]), unhx(kv["host"])
+        if kv["pm"] != "1" or method not in WIRE_METHODS or not host:
+            continue
+        if any(not TOKEN_RE.fullmatch(n) or not header_value_safe(v) or n.lower() == b"host" for n, v in hs):
+            continue
+        raw = method + b" /connection/websocket HTTP/1.1\r\nHost: " + host + b"\r\n"
+        for n, v in hs:
+            raw += n + b":" + rng.choice([b" ", b"", b"  ", b"\t"]) + v + rng.choice([b"", b"", b" ", b"\t "]) + b"\r\n"
+        raw += b"\r\n"
+        trimmed = [(n, v.strip(b" \t")) for n, v in hs]
+        hline = " ".join(f"{hx(n)}:{hx(v)}" for n, v in trimmed)
+        subs = ",".join(hx(x) for x in SERVER_SUBS)
+        return (f"wire pm=1 m={hx(method)} host={hx(host)} sub={subs} comp={kv['comp']} noh1={kv['noh1']} co=samehost oh=? "
+                f"raw={raw.hex()} H {hline}").rstrip()
+    return None
+
+
 VALID_RECV = list(range(1000, 1004)) + list(range(1007, 1012))
 
 
@@ -387,8 +416,10 @@ def oracle_up(op, out):
         return "error response lacks Sec-WebSocket-Version: 13"
     # origin check
     if wellformed:
-        if kv["co"] == "nil":
-            if not origin:
+        if kv["co"] in ("nil", "samehost"):
+            # nil: websocket.checkSameOrigin (no Origin header passes); samehost: centrifuge's checkSameHost
+            # (an empty first Origin value passes as well)
+            if not origin or (kv["co"] == "samehost" and origin[0] == b""):
                 origin_ok = True
             elif kv["oh"] == "err":
                 origin_ok = False
@@ -626,7 +657,7 @@ def signature(op, msg):
         sig = {"panic": True}
         if ws[0] == "key":
             sig["key_class"] = key_class(unhx(ws[1]))
-        elif ws[0] == "up":
+        elif ws[0] in ("up", "wire"):
             kv, hs = parse_up(op)
             keys = [v for n, v in hs if n.lower() == b"sec-websocket-key"] or [b""]
             sig["key_class"] = key_class(keys[0])
@@ -635,7 +666,7 @@ def signature(op, msg):
 
 # ------------------------------------------------------------------ run
 def route(op):
-    return "root" if op.split()[0] == "tclose" else "ws"
+    return "root" if op.split()[0] in ("tclose", "wire") else "ws"
 
 
 def run_impl(ctx, bins, ops):
@@ -659,12 +690,40 @@ def patch_oh(ops, impl):
     input of the model; strip the report from the implementation's line."""
     pops, pimpl = [], []
     for op, out in zip(ops, impl):
-        if op.startswith("up ") and " #oh=" in out:
+        if op.startswith(("up ", "wire ")) and " #oh=" in out:
             out, oh = out.rsplit(" #oh=", 1)
             op = re.sub(r" oh=\S+", " oh=" + ("-" if oh == "none" else oh), op, count=1)
         pops.append(op)
         pimpl.append(out)
     return pops, pimpl
+
+
+def wire_norm_impl(out):
+    """`status=101 vh=1 head=…` → comparable form (the version header is judged by the oracle)"""
+    if not out.startswith("status="):
+        return out
+    kv = dict(w.split("=", 1) for w in out.split())
+    return f"status=101 head={kv['head']}" if kv["status"] == "101" else f"status={kv['status']}"
+
+
+def wire_from_model(line):
+    if line.startswith("reject "):
+        return "status=" + line.split()[1]
+    if line.startswith("h1 "):
+        return "status=101 head=" + line.split()[1]
+    if line == "PANIC":
+        return "noresponse"
+    return line
+
+
+def wire_as_up_output(out):
+    """the real server's answer in the vocabulary of the `up` oracle"""
+    if out == "noresponse":
+        return "PANIC"
+    kv = dict(w.split("=", 1) for w in out.split())
+    if kv["status"] == "101":
+        return "h1 " + kv["head"]
+    return f"reject {kv['status']} wire" + ("" if kv.get("vh") == "1" else "+no-version-header")
 
 
 def gen_ops(ctx):
@@ -692,6 +751,10 @@ def gen_ops(ctx):
         ops.append("utf8 " + hx(gen_text(rng)))
     for _ in range(300 * n):
         ops.extend(gen_conn_scenario(rng))
+    for _ in range(250 * n):
+        w = gen_wire(rng)
+        if w:
+            ops.append(w)
     for i in range(0, 131):
         ops.append(gen_tclose(rng, i))
     for _ in range(60 * n):
@@ -713,16 +776,17 @@ def check_ops(ctx, bins, ops, label=""):
     if path is None:  # built once per run (lake is serialised between all checks by a lock)
         path = ctx.lean_driver_build()
         ctx._c31_driver = path or False
-    model = ctx.run_lines([path], ops) if path else None
+    model = ctx.run_lines([path], [("up" + o[4:]) if o.startswith("wire ") else o for o in ops]) if path else None
     model_ok = model is not None
     model = model or []
+    model = [wire_from_model(m) if o.startswith("wire ") else m for o, m in zip(ops, model)] + model[len(ops):]
     co = ConnOracle()
     nviol = 0
     for i, op in enumerate(ops):
         out = impl[i]
         kind = op.split()[0]
         ctx.count("op:" + kind)
-        if kind in ("key", "recv", "send", "tok", "utf8", "up"):
+        if kind in ("key", "recv", "send", "tok", "utf8", "up", "wire"):
             ctx.count("impl:" + kind + ":" + out.split()[0][:24] + ((":" + out.split()[2]) if out.startswith("reject ") else ""))
         elif kind == "tclose":
             ctx.count("impl:tclose:" + ("no-frame" if out.startswith("frames=- ") else "frame" if out.startswith("frames=") else "other"))
@@ -735,6 +799,8 @@ def check_ops(ctx, bins, ops, label=""):
             msg = co.check(op, out)
         elif kind == "up":
             msg = oracle_up(op, out)
+        elif kind == "wire":
+            msg = oracle_up(op, wire_as_up_output(out))
         else:
             msg = oracle_simple(op, out)
         if msg:
@@ -749,7 +815,8 @@ def check_ops(ctx, bins, ops, label=""):
                           replay={"ops": replay_ops, "impl": impl[i - len(replay_ops) + 1:i + 1]})
     ndiff = 0
     if model_ok:
-        for i, op, a, b in diff_lines(ops, impl, model):
+        cmp_impl = [wire_norm_impl(a) if o.startswith("wire ") else a for o, a in zip(ops, impl)]
+        for i, op, a, b in diff_lines(ops, cmp_impl, model):
             if a.startswith("HARNESS-ERROR") or a == "<missing>":
                 continue
             ndiff += 1
